@@ -339,7 +339,7 @@ def config_tie(tie, plugin, defs):
     return real
 
 
-E2E_OPS = ("eq", "ne", "cmp", "pcmp", "cmpw", "pcmpw", "hash", "eqhash", "clone", "clonefrom", "dbg", "dbgd", "deref", "derefmut", "write", "into")
+E2E_OPS = ("eq", "ne", "cmp", "pcmp", "cmpw", "pcmpw", "hash", "eqhash", "clone", "clonefrom", "dbg", "dbgd", "deref", "derefmut", "write", "into", "default", "new")
 E2E_OFFSET = 1000000
 
 
